@@ -102,7 +102,7 @@ func RunChild(m *Monitor, o ChildOpts) int {
 	}
 	capD := m.CaseCap
 	if capD == 0 {
-		capD = 120 * time.Second
+		capD = 10 * time.Minute
 	}
 	lastFlush := time.Now()
 	timer := time.NewTimer(time.Hour)
